@@ -71,6 +71,7 @@ def chunks(tier, seed):
     maxd = 10 if tier == "quick" else 25
     for k in range(16):
         out.append({"kind": "rand", "n": nrand // 16, "maxdepth": maxd, "key": "rand%d" % k})
+    out.append({"kind": "shared_obs", "key": "shared_obs"})
     return out
 
 
@@ -126,6 +127,15 @@ def setup(ctx):
 # --------------------------------------------------------------------------
 def cases(chunk):
     rng = gen.rng_for(PROP, chunk)
+    if chunk["kind"] == "shared_obs":
+        # tracks related by extraction share their observation OBJECTS: a feature is given to the extract, then one to
+        # the track it was taken from (and the other way round)
+        for n in (2, 3, 4, 5):
+            for k in range(n):
+                for first in ("extract", "parent"):
+                    for how in ("create_list", "set_list", "expr"):
+                        yield {"kind": "shared_obs", "size": n, "upto": k, "first": first, "how": how}
+        return
     if chunk["kind"] == "exh":
         idx = 0
         for d in range(1, chunk["depth"] + 1):
@@ -756,8 +766,53 @@ class Runner:
         return p
 
 
+def run_shared_obs(case, ctx):
+    """A feature written on one of two tracks that share observation objects, then one on the other; each must read
+    back what was written under its own names, with one value per listed feature on every observation."""
+    n, k = case["size"], case["upto"]
+    parent = gen.make_track([(10.0 * i + 1, -3.0 * i - 2, 0.5 * i + 7) for i in range(n)],
+                            t0_ms=gen.ms_from_fields(1970, 1, 2, 3, 4, 5), step_ms=1500)
+    child = parent.extract(0, k)
+    A, B = (child, parent) if case["first"] == "extract" else (parent, child)
+    va = [100.0 + i for i in range(A.size())]
+    vb = [200.0 + i for i in range(B.size())]
+
+    def write(tr, name, vals):
+        if case["how"] == "create_list":
+            return M.call(tr.createAnalyticalFeature, name, list(vals))
+        if case["how"] == "set_list":
+            def _s():
+                tr[name] = list(vals)
+            return M.call(_s)
+        r = M.call(tr.createAnalyticalFeature, "src_" + name, list(vals))
+        return r if M.is_raised(r) else M.call(tr.operate, "%s=src_%s*1" % (name, name))
+    sig = ("shared_obs", n, k, case["first"], case["how"])
+    cls = ["shared_observation_objects", "size:%d" % n]
+    ra = write(A, "fa", va)
+    rb = write(B, "fb", vb)
+    ctx.monitor("model.state_compare")
+    if M.is_raised(ra) or M.is_raised(rb):
+        return violated({"what": "writing a feature raised on a track that shares its observations with another",
+                         "raised": ra if M.is_raised(ra) else rb, "case": case}, sig, True, cls)
+    for tr, name, vals, who in ((A, "fa", va, "first"), (B, "fb", vb, "second")):
+        got = M.call(tr.getAnalyticalFeature, name)
+        if M.is_raised(got) or not M.seq_eq(list(got), vals):
+            return violated({"what": "reading a feature does not return the values last written under that name (two "
+                                     "tracks related by extraction share their observation objects)", "track": who,
+                             "name": name, "got": got, "expected": vals, "case": case}, sig, True, cls)
+        lst = tr.getListAnalyticalFeatures()
+        for o in tr.getObsList():
+            if len(o.features) != len(lst):
+                return violated({"what": "an observation does not carry exactly one value per listed feature (two tracks "
+                                         "related by extraction share their observation objects)", "track": who,
+                                 "n_values": len(o.features), "listed": list(lst), "case": case}, sig, True, cls)
+    return held(sig, True, cls)
+
+
 def run_case(case, ctx):
     import random
+    if case.get("kind") == "shared_obs":
+        return run_shared_obs(case, ctx)
     R = Runner(case["size"], ctx)
     if "hist" in case:
         ops = [tuple(o) for o in case["hist"]]
@@ -791,7 +846,14 @@ def run_case(case, ctx):
     return held(sig, nt, cls)
 
 
+KF_SHARED = "C01:shared-observation-objects"
+
+
 def classify(case, witness):
+    """One open finding, keyed by the input mechanism: the failing history writes features on two tracks that share
+    their observation objects (a track and one of its extracts).  Every other history is a violation."""
+    if case.get("kind") == "shared_obs":
+        return KF_SHARED
     return None
 
 
